@@ -375,7 +375,12 @@ def run_cg(torch, CG, c):
     b = b.reshape(-1, 1) if c['bcol'] else b
     x0 = None if c['x0'] is None else torch.tensor(c['x0'], dtype=torch.float64).reshape(-1, 1)
     try:
-        x = CG(maxiter=c['maxiter'], tol=c['tol'])(A, b, x0, M)
+        solver = CG(maxiter=c['maxiter'], tol=c['tol'])
+        # history: the same solver object has already solved systems of these sizes (a solver must not
+        # carry anything over from one call to the next)
+        for m in c.get('prime_sizes') or []:
+            solver(torch.eye(m, dtype=torch.float64) * 2.0, torch.ones(m, 1, dtype=torch.float64))
+        x = solver(A, b, x0, M)
     except BaseException as e:  # noqa
         return ('raised', '%s: %s' % (type(e).__name__, str(e)[:200]))
     v = tolist(x)
@@ -518,8 +523,16 @@ def check_cg_property(ctx, torch, CG):
             x0 = None if rng.random() < 0.6 else torch.randn(n, generator=gen, dtype=torch.float64).tolist()
             c = dict(kind='cg-prop', A=A.tolist(), b=b.tolist() if rep or n % 5 else [0.0] * n, x0=x0, M=M, tol=rng.choice([1e-5, 1e-5, 1e-3, 1e-8]),
                      maxiter=None, storeA=store, storeM=rng.choice(['dense', 'csr']), bcol=True, kappa=kappa)
+            if rep == 1:
+                # one solver object reused: smaller systems first, then this one
+                c['prime_sizes'] = sorted(rng.sample(range(1, max(2, n)), min(2, max(1, n - 1)))) if n > 1 else [1]
+                if n >= 8:
+                    c['kappa'] = kappa = 1000.0
+                    lam = torch.tensor([kappa ** (k / max(n - 1, 1)) for k in range(n)], dtype=torch.float64)
+                    A2 = (Q * lam) @ Q.T
+                    c['A'] = ((A2 + A2.T) / 2).tolist()
             why = cg_property(torch, CG, c)
-            ctx.case(('cg-prop', n, rep, kappa, store), nontrivial=True, branch='cg-property:kappa<=%g' % kappa)
+            ctx.case(('cg-prop', n, rep, kappa, store), nontrivial=True, branch='cg-property:kappa<=%g%s' % (kappa, ':reused-solver' if c.get('prime_sizes') else ''))
             ctx.count('cg-property-size:%s' % ('1-4' if n <= 4 else '5-16' if n <= 16 else '17-40'))
             if why:
                 ctx.violation('CG.forward:tolerance-not-met', why, c)
